@@ -208,6 +208,10 @@ func c01Systematic() []c01Case {
 		// literal forms
 		lits := []ref.Expr{
 			&ref.Lit{V: ref.Int(31), Src: "0x1F"}, &ref.Lit{V: ref.Int(43981), Src: "0xABCD"}, &ref.Lit{V: ref.Int(0), Src: "0x0"},
+			// a minus before a hexadecimal literal is the unary operator
+			&ref.Lit{V: ref.Int(-31), Src: "-0x1F"}, &ref.Binary{Op: "*", L: &ref.Lit{V: ref.Int(2)}, R: &ref.Lit{V: ref.Int(-31), Src: "-0x1F"}},
+			// a character beyond U+FFFF written as the two \u escapes of its surrogate pair
+			&ref.Lit{V: ref.Str("\U0001F600"), Src: `'\uD83D\uDE00'`}, &ref.Lit{V: ref.Str("a\U0001F600\u00e9\U00010000"), Src: `'a\uD83D\uDE00\u00E9\uD800\uDC00'`},
 			&ref.Lit{V: ref.Float(1500), Src: "1.5e3"}, &ref.Lit{V: ref.Float(0.25), Src: "25e-2"}, &ref.Lit{V: ref.Float(1000), Src: "1e3"}, &ref.Lit{V: ref.Float(120), Src: "1.2e+2"},
 			&ref.Lit{V: ref.Float(0.5)}, &ref.Lit{V: ref.Float(-100)}, &ref.Lit{V: ref.Int(-827)}, &ref.Lit{V: ref.Int(ref.MaxSafe - 1)}, &ref.Lit{V: ref.Int(-(ref.MaxSafe - 1))},
 			&ref.Lit{V: ref.Null}, &ref.Lit{V: ref.Bool(true)}, &ref.Lit{V: ref.Bool(false)},
@@ -735,7 +739,11 @@ func init() {
 			tofu, err := compile(files, prog.B.Globals)
 			if err != nil {
 				ctx.Eval("")
-				return fw.Result{Verdict: fw.Violated, Key: "compile-rejects-valid@" + posName, Case: cd,
+				key := "compile-rejects-valid@" + posName
+				if strings.Contains(ref.Src(e, style), "-0x") && strings.Contains(errText(err), `bad number syntax: "-"`) {
+					key = "compile-rejects-valid:minus-before-hex-literal" // (one defect whatever the position: see known_findings.txt)
+				}
+				return fw.Result{Verdict: fw.Violated, Key: key, Case: cd,
 					Msg: fmt.Sprintf("valid expression %q rejected in position %s: %v", ref.Src(e, style), posName, errText(err))}
 			}
 			id := ""
